@@ -60,6 +60,13 @@ def ev(e, env, atoms=None):
         if op is ast.FloorDiv:
             return a // b
         raise Unsupported(op.__name__)
+    if isinstance(e, ast.Compare) and len(e.ops) > 1 and atoms is not None:
+        # a op1 b op2 c  is  (a op1 b) and (b op2 c): each link is looked up / evaluated on its own
+        operands = [e.left] + list(e.comparators)
+        for op, a, b in zip(e.ops, operands, operands[1:]):
+            if not ev(ast.Compare(left=a, ops=[op], comparators=[b]), env, atoms):
+                return False
+        return True
     if isinstance(e, ast.Compare):
         vals = [ev(e.left, env, atoms)] + [ev(c, env, atoms) for c in e.comparators]
         for op, a, b in zip(e.ops, vals, vals[1:]):
